@@ -43,6 +43,10 @@ def check(run, P):
              "pushed back, merged into the current child, or becomes the current "
              "child after the old one was appended; output grows by append only",
              minimum=3)
+    run.rule("C06.lost", "work-list passes: a node taken from the queue is, on every "
+             "path, appended to the output, merged, expanded or handed on before its "
+             "variable is re-bound or the function returns - unless it is known to be "
+             "a NullASTNode (and nothing else) on that path", minimum=2)
     run.rule("C06.neg", "each stripped LogicalNot is paired with exactly one swap of "
              "the arms", minimum=1)
     run.rule("C06.same", "nested same-condition collapse takes then.then / "
@@ -70,6 +74,7 @@ def check(run, P):
     m = P.module(MOD)
     _splice_and_pop(run, P, m)
     _keep(run, P)
+    _lost(run, P)
     _ifthenelse(run, P)
     _merge(run, P)
     _post_pre(run, P)
@@ -91,9 +96,35 @@ def _deque_vars(fnode):
     return out
 
 
+def _list_vars(fnode):
+    """Local lists (built empty or by a comprehension) that are indexed or popped."""
+    built = set()
+    for s in ast.walk(fnode):
+        if isinstance(s, ast.Assign) and (
+                isinstance(s.value, (ast.List, ast.ListComp))
+                or (isinstance(s.value, ast.Call) and dotted(s.value.func) == "list")):
+            for t in s.targets:
+                if isinstance(t, ast.Name):
+                    built.add(t.id)
+    used = set()
+    for x in ast.walk(fnode):
+        if isinstance(x, ast.Subscript) and isinstance(x.value, ast.Name) and x.value.id in built \
+                and isinstance(x.ctx, ast.Load) and not isinstance(x.slice, ast.Slice):
+            used.add(x.value.id)
+        if isinstance(x, ast.Call) and isinstance(x.func, ast.Attribute) and x.func.attr == "pop" \
+                and isinstance(x.func.value, ast.Name) and x.func.value.id in built:
+            used.add(x.func.value.id)
+    return used
+
+
 def _splice_and_pop(run, P, m):
     n_deque_funcs = 0
     for f in m.functions.values():
+        if f.cls is not None and f.cls.name in ("ASTPreSimplifyMapper", "ASTSimplifyMapper",
+                                                "ASTPostSimplifyMapper") and f.parent is None:
+            lists = _list_vars(f.node) - _deque_vars(f.node)
+            if lists:
+                _pop_guard(run, f, lists)
         dq = _deque_vars(f.node)
         if not dq:
             continue
@@ -152,13 +183,21 @@ def _nonempty_test(test, q):
                 and isinstance(l.args[0], ast.Name) and l.args[0].id == q \
                 and isinstance(r, ast.Constant):
             op = test.ops[0]
-            if isinstance(op, ast.Gt) and r.value == 0:
+            if not isinstance(r.value, int) or isinstance(r.value, bool):
+                return None
+            if isinstance(op, ast.Gt) and r.value >= 0:
                 return "T"
-            if isinstance(op, ast.GtE) and r.value == 1:
+            if isinstance(op, ast.GtE) and r.value >= 1:
                 return "T"
             if isinstance(op, ast.NotEq) and r.value == 0:
                 return "T"
+            if isinstance(op, ast.Eq) and r.value >= 1:
+                return "T"
             if isinstance(op, ast.Eq) and r.value == 0:
+                return "F"
+            if isinstance(op, ast.Lt) and r.value <= 1:
+                return "F"
+            if isinstance(op, ast.LtE) and r.value <= 0:
                 return "F"
     return None
 
@@ -233,6 +272,105 @@ def _pop_guard(run, f, dq):
                            f"instead of terminating")
 
 # }}}
+
+
+def _lost(run, P):
+    """Ownership dataflow for nodes popped from a work-list deque."""
+    from ..engine.cfg import forward
+    f = P.func(f"{MOD}.ASTSimplifyMapper.map_Block")
+    g = CFG(f.node)
+    dq = _deque_vars(f.node)
+    if not dq:
+        raise AnalysisError("map_Block: no deque")
+    FRESH, OK = 2, 0
+    holders = set()
+    for n in g.nodes:
+        if n.kind == "stmt" and isinstance(n.ast, ast.Assign) and len(n.ast.targets) == 1 \
+                and isinstance(n.ast.targets[0], ast.Name):
+            v = n.ast.value
+            if isinstance(v, ast.Call) and isinstance(v.func, ast.Attribute) \
+                    and v.func.attr in ("popleft", "pop") and dotted(v.func.value) in dq:
+                holders.add(n.ast.targets[0].id)
+    # names that take over a held node:  cur = nxt
+    changed = True
+    while changed:
+        changed = False
+        for n in g.nodes:
+            if n.kind == "stmt" and isinstance(n.ast, ast.Assign) and len(n.ast.targets) == 1 \
+                    and isinstance(n.ast.targets[0], ast.Name) and isinstance(n.ast.value, ast.Name) \
+                    and n.ast.value.id in holders and n.ast.targets[0].id not in holders:
+                holders.add(n.ast.targets[0].id)
+                changed = True
+    if not holders:
+        raise AnalysisError("map_Block: no variable holds a popped node")
+    findings = []
+
+    def uses(node, name):
+        return any(isinstance(x, ast.Name) and x.id == name and isinstance(x.ctx, ast.Load)
+                   for fr in own_fragments(node) for x in walk_fragment(fr))
+
+    def transfer(n, st, record=False):
+        st = dict(st)
+        if n.kind == "stmt" and n.ast is not None:
+            a = n.ast
+            target = a.targets[0].id if isinstance(a, ast.Assign) and len(a.targets) == 1 \
+                and isinstance(a.targets[0], ast.Name) else None
+            # uses in a statement consume (append / merge / expand / return)
+            for h in holders:
+                if uses(n, h) and not (isinstance(a, ast.Assign) and isinstance(a.value, ast.Name)
+                                       and a.value.id == h and target in holders):
+                    st[h] = OK
+            if isinstance(a, ast.Return):
+                for h in holders:
+                    if st.get(h, OK) == FRESH and record:
+                        findings.append((n, h, "the function returns"))
+            if target in holders:
+                if st.get(target, OK) == FRESH and record:
+                    findings.append((n, target, f"'{target}' is re-bound"))
+                if isinstance(a.value, ast.Name) and a.value.id in holders:
+                    st[target] = st.get(a.value.id, OK)     # ownership moves
+                    st[a.value.id] = OK
+                else:
+                    st[target] = FRESH
+        return st
+
+    def edge(n, lab, st):
+        if n.kind == "test" and isinstance(n.ast, ast.Call) and dotted(n.ast.func) == "isinstance" \
+                and len(n.ast.args) == 2 and isinstance(n.ast.args[0], ast.Name) \
+                and n.ast.args[0].id in holders and lab == "T" \
+                and dotted(n.ast.args[1]) == "NullASTNode":
+            st = dict(st)
+            st[n.ast.args[0].id] = OK
+        return st
+
+    def meet(a, b):
+        return {k: max(a.get(k, OK), b.get(k, OK)) for k in set(a) | set(b)}
+
+    ins = forward(g, {}, transfer, edge, meet=meet, top=None)
+    for n in g.nodes:
+        if ins[n] is not None:
+            transfer(n, ins[n], record=True)
+    # falling off the end
+    for a, lab in g.pred[g.exit]:
+        if lab == "fall" and ins.get(a) is not None:
+            out = transfer(a, ins[a])
+            for h in holders:
+                if out.get(h, OK) == FRESH:
+                    findings.append((a, h, "the function ends"))
+    seen = set()
+    for h in sorted(holders):
+        bad = [(n, why) for n, hh, why in findings if hh == h]
+        key = h
+        if key in seen:
+            continue
+        seen.add(key)
+        run.ob("C06.lost", f, bad[0][0].ast if bad else f.node, not bad,
+               construct=f"node held in a work-list variable ({len(holders)} such variables; this one "
+                         f"#{sorted(holders).index(h)}) is passed on before "
+                         f"{bad[0][1] if bad else 'it is re-bound or the function returns'}",
+               why="a node that is neither null nor passed on is dropped from the tree "
+                   "together with every statement below it (a leading inner block, say, "
+                   "when the queue runs empty)")
 
 
 def _keep(run, P):
